@@ -1,5 +1,60 @@
-(* C01 placeholder while the proofs are being built: obligations on facts only *)
+(* C01 -- Serializer round-trip is total and type-exact on builtin values.
+   Property statements only; proofs are in proofs/CodecP*.v. *)
 From Coq Require Import ZArith List Bool.
-Require Import EV.gen.Facts.
-Lemma C01_cfg_ok_tmp : int_lo_checked = true.
-Proof. reflexivity. Qed.
+Import ListNotations.
+Require Import EV.model.Cfg EV.model.Value EV.model.CodecSpec EV.model.Ser EV.model.Unser.
+Require Import EV.proofs.CodecP3 EV.proofs.CodecP4 EV.proofs.CodecP6 EV.gen.Facts.
+Open Scope Z_scope.
+
+(* facts of the current source: the short int branch has a lower bound; send serialises before it writes *)
+Definition cfg_ok_C01 : Prop :=
+  int_lo_checked = true /\ send_dumps_before_write = true /\ four_byte_int_max = INT_MAX /\ dump_version = VERSION.
+Lemma C01_cfg_ok : cfg_ok_C01.
+Proof. repeat split; reflexivity. Qed.
+
+(* the model instance that is extracted and compared with the implementation is the one the theorems are about *)
+Lemma C01_model_instance : forall v, dumps int_lo_checked v = dumps true v.
+Proof. intro v. rewrite (proj1 C01_cfg_ok). reflexivity. Qed.
+
+(* For EVERY well-formed value -- None, bool, int of any magnitude and sign, float and complex as bit
+   patterns (NaN payloads, inf, -0.0 included), bytes, every string of Unicode scalar values, lists,
+   tuples, dicts (insertion order kept), sets and frozensets, nested to any depth and width --
+   dumps succeeds and loads returns exactly the same value (same constructor = same type at every
+   position), with nothing left over, for every string-coercion setting that keeps Python-3 strings
+   (the default of loads and of channels) and for every allocation bound >= 2^31-1. *)
+Theorem C01_roundtrip : forall ma sc v,
+  py3str_as_py2str sc = false -> 2147483647 <= ma -> wfb false v = true ->
+  exists b, dumps true v = Ok b /\ loads_r ma sc b = Ok (v, []).
+Proof. intros ma sc v Hsc Hma W. exact (loads_dumps ma sc Hsc Hma v W). Qed.
+Print Assumptions C01_roundtrip.
+
+(* ... and through a channel (dumps_internal / loads_internal with the gateway's channel factory),
+   where channel objects inside the value arrive as channels with the same id *)
+Theorem C01_roundtrip_channel : forall ma sc v,
+  py3str_as_py2str sc = false -> 2147483647 <= ma -> wfb true v = true ->
+  exists b, dumps_internal true v = Ok b /\ load_internal ma sc true b = Ok (v, []).
+Proof. intros ma sc v Hsc Hma W. exact (loads_dumps_internal ma sc Hsc Hma v W). Qed.
+Print Assumptions C01_roundtrip_channel.
+
+(* A value with any other type, or a string with a lone surrogate, at ANY nesting position is
+   rejected with DumpError (the saver returns no bytes at all, so nothing reaches the connection:
+   Channel.send evaluates dumps_internal(item) as an argument of the one _send call). *)
+Theorem C01_reject : forall v, unsupported v = true -> chan_free v = true ->
+  save true v = Err DumpError /\ dumps true v = Err DumpError /\ dumps_internal true v = Err DumpError.
+Proof. exact reject_unsupported. Qed.
+Print Assumptions C01_reject.
+
+(* non-vacuity: a nested value using every constructor is well-formed; ints on both sides of +-2^31 *)
+Example C01_example_wf :
+  wfb false (VList [VNone; VBool true; VInt (-2147483649); VInt 2147483648; VInt (10 ^ 40); VFloat 9221120237041090561;
+                    VComplex 0 9223372036854775808; VBytes [0; 255]; VStr [97; 233; 28450; 128512; 1114111];
+                    VTuple [VList []; VTuple []]; VDict [(VTuple [VInt 1; VStr [107]], VSet [VInt 1; VStr []]); (VBool false, VFrozenset [VNone])]]) = true.
+Proof. vm_compute. reflexivity. Qed.
+Example C01_example_roundtrip :
+  let v := VDict [(VInt (-2147483649), VList [VFloat 9221120237041090561; VStr [128512]]); (VStr [], VTuple [])] in
+  match dumps true v with Ok b => loads 2147483647 {| py2str_as_py3str := false; py3str_as_py2str := false |} b = Ok v | Err _ => False end.
+Proof. vm_compute. reflexivity. Qed.
+Example C01_example_reject :
+  dumps true (VList [VInt 1; VDict [(VStr [107], VTuple [VOther 7])]]) = Err DumpError /\
+  dumps true (VTuple [VStr [97; 55296]]) = Err DumpError.
+Proof. vm_compute. split; reflexivity. Qed.
